@@ -107,6 +107,9 @@ func decodeAmmo(jsonDoc []byte, am *ammo.Ammo) (*ammo.Ammo, error) {
 	var ammo ammo.Ammo
 	err := ammoJSON.Unmarshal(jsonDoc, &ammo)
 	if err != nil {
+		// am comes from the pool and may still hold an earlier entry: a line that cannot be decoded
+		// must not be delivered (ContinueOnError) with that entry's call, metadata and payload.
+		am.Reset("", "", nil, nil)
 		return am, errors.WithStack(err)
 	}
 
